@@ -94,7 +94,7 @@ class sym_backend(numpy_backend):
                 if isinstance(a, np.ndarray) and not isinstance(a, SymArray) and a.dtype.kind == "f" and a.size:
                     _PROV["violations"].append(("foreign-float-array", self.tag, str(a.dtype)))
                 elif t is not None and t != self.tag:
-                    _PROV["violations"].append(("foreign-tag", self.tag, t))
+                    _PROV["violations"].append(("foreign-tag", self.tag, str(t)))
                 elif not isinstance(a, (np.ndarray, list, tuple, SV, SB, numbers.Number, type(None), range)):
                     _PROV["violations"].append(("foreign-type", self.tag, type(a).__name__))
 
@@ -105,7 +105,7 @@ class sym_backend(numpy_backend):
 
     # ---- construction -------------------------------------------------------------------------
     def astensor(self, tensor_in, dtype="float"):
-        self._in(tensor_in)
+        self.opcount += 1      # conversion point: foreign tensors are legitimate here
         if dtype not in self.dtypemap:
             raise KeyError(dtype)
         if dtype == "int":
